@@ -486,6 +486,58 @@ static inline std::string dump_seg(gr_segment *seg, const gr_face *face, const g
     return s;
 }
 
+// ------------------------------------------------------------------ face self-report
+// Everything a face says about itself through the public API, as text (C08, C10, C14, C16 compare it).
+static inline std::string label_str(void *lab, gr_encform enc, uint32_t len) {
+    if (!lab) return "NULL";
+    size_t unit = enc == gr_utf8 ? 1 : enc == gr_utf16 ? 2 : 4;
+    return hexs(lab, (size_t(len) + 1) * unit);          // includes the terminator the API promises
+}
+static inline std::string face_report(const gr_face *f, bool labels = true) {
+    std::string s;
+    appendf(s, "glyphs=%u nfref=%u nlang=%u\n", gr_face_n_glyphs(f), gr_face_n_fref(f), gr_face_n_languages(f));
+    const gr_faceinfo *fi = gr_face_info(f, 0);
+    if (fi) appendf(s, "info asc=%u desc=%u upem=%u space=%d bidi=%d ends=%d just=%d\n", fi->extra_ascent, fi->extra_descent, fi->upem, int(fi->space_contextuals), int(fi->has_bidi_pass), int(fi->line_ends), int(fi->justifies));
+    unsigned nf = gr_face_n_fref(f);
+    static const gr_encform encs[3] = {gr_utf8, gr_utf16, gr_utf32};
+    for (unsigned i = 0; i < nf; ++i) {
+        const gr_feature_ref *fr = gr_face_fref(f, uint16_t(i));
+        unsigned nv = gr_fref_n_values(fr);
+        appendf(s, "f%u id=%08x nv=%u found=%d", i, gr_fref_id(fr), nv, gr_face_find_fref(f, gr_fref_id(fr)) == fr);
+        for (unsigned v = 0; v < nv; ++v) appendf(s, " %d", gr_fref_value(fr, uint16_t(v)));
+        s += "\n";
+        if (labels) {
+            for (int e = 0; e < 3; ++e) {
+                uint16_t lang = 0x0409;
+                uint32_t len = 0;
+                void *lab = LIB(gr_fref_label(fr, &lang, encs[e], &len));
+                appendf(s, " l%d lang=%x len=%u %s\n", 1 << e, lang, len, label_str(lab, encs[e], len).c_str());
+                if (lab) LIBV(gr_label_destroy(lab));
+            }
+            for (unsigned v = 0; v < nv && v < 6; ++v) {
+                uint16_t lang = uint16_t(v & 1 ? 0x0409 : 0x040C);
+                uint32_t len = 0;
+                void *lab = LIB(gr_fref_value_label(fr, uint16_t(v), &lang, gr_utf8, &len));
+                appendf(s, " v%u lang=%x len=%u %s\n", v, lang, len, label_str(lab, gr_utf8, len).c_str());
+                if (lab) LIBV(gr_label_destroy(lab));
+            }
+        }
+    }
+    unsigned nl = gr_face_n_languages(f);
+    for (unsigned i = 0; i <= nl; ++i) {
+        uint32_t lang = i < nl ? gr_face_lang_by_index(f, uint16_t(i)) : 0;
+        gr_feature_val *fv = LIB(gr_face_featureval_for_lang(f, lang));
+        appendf(s, "lang %08x:", lang);
+        if (fv) { for (unsigned k = 0; k < nf; ++k) appendf(s, " %u", gr_fref_feature_value(gr_face_fref(f, uint16_t(k)), fv)); LIBV(gr_featureval_destroy(fv)); }
+        s += "\n";
+    }
+    static const uint32_t probe[] = {0, 0x20, 0x41, 0x61, 0x7F, 0xA0, 0x300, 0x627, 0x1000, 0x1039, 0x200C, 0x25CC, 0xD7FF, 0xE000, 0xF000, 0xFFFD, 0xFFFE, 0xFFFF, 0x10000, 0x1D510, 0x10FFFF, 0x110000, 0xFFFFFFFFu};
+    s += "supp";
+    for (uint32_t u : probe) appendf(s, " %d", gr_face_is_char_supported(f, u, 0));
+    s += "\n";
+    return s;
+}
+
 // ------------------------------------------------------------------ MON-STRUCT
 struct StructReport {
     std::vector<std::string> c03, c04, c05, c02;
